@@ -51,7 +51,10 @@ TREES["three_roots"] = ([{"p": "r/a1", "k": "file", "c": ["lit", "same"]}, {"p":
                          {"p": "r3/s/a3", "k": "file", "c": ["lit", "same"]}, {"p": "r2/b1", "k": "file", "c": ["lit", "bbbb"]},
                          {"p": "r3/b2", "k": "file", "c": ["lit", "bbbb"]}, {"p": "r/u", "k": "file", "c": ["lit", "uniq"]}],
                         [], "ssd", False)
-ROOTS = {"three_roots": ["r", "r2", "r3"]}
+# overlapping input paths on a file system with FIEMAP under the HDD pin: the files below r/d are collected twice and
+# the extent query is issued for each occurrence - a failing query may not make fclones list the file twice
+TREES["ext4_hdd_overlap"] = (TREES["ext4_hdd"][0] + [{"p": "r/d/x4", "k": "file", "c": ["base", 20000, 3]}], [], "hdd", True)
+ROOTS = {"three_roots": ["r", "r2", "r3"], "ext4_hdd_overlap": ["r", "r/d"]}
 ERRNOS = ["EACCES", "EIO", "ENOENT"]
 
 
@@ -298,6 +301,12 @@ def evaluate(case):
                 continue
             # lexical normalisation: a failing realpath() makes fclones report the same file as '<dir>/../x'
             obs_groups = [frozenset(os.path.normpath(C.u(p)) for p in g["paths"]) for g in obs.groups]
+            for g in obs.groups:
+                ps = [os.path.normpath(C.u(p)) for p in g["paths"]]
+                twice = sorted(set(p for p in ps if ps.count(p) > 1))
+                if twice:
+                    viol.append(dict(feat, kind="path_listed_twice", detail="%s: %s listed more than once in its group" % (ctx, twice),
+                                     replay_case=rc_case))
             # byte identity of every reported group
             for g in obs_groups:
                 datas = set(info[p][1] for p in g if p in info)
